@@ -274,7 +274,11 @@ func (c *Ctx) contractCall(fr *Frame, st *State, site ssa.Instruction, fn *ssa.F
 	}
 	// frame
 	if con.AssignsAll {
-		c.havocEverything(st)
+		if con.NoGhost {
+			c.havocEverythingButGhost(st)
+		} else {
+			c.havocEverything(st)
+		}
 	} else {
 		locs := c.assignLocs(env, con)
 		c.havocLocs(st, pre, locs, "call")
@@ -356,6 +360,42 @@ func (c *Ctx) havocEverything(st *State) {
 	nx := c.fresh("next", "Int")
 	c.assumeAlways(app(">=", nx, next))
 	st.heap["$next"] = nx
+}
+
+// ghostLeaves: every scalar leaf of the specification-only variable "ghost" of the root package.
+func (c *Ctx) ghostLeaves() (names, sorts []string) {
+	rp := c.prog.Pkgs[rootPkg]
+	if rp == nil {
+		return
+	}
+	g, ok := rp.Members["ghost"].(*ssa.Global)
+	if !ok {
+		return
+	}
+	et := g.Type().(*types.Pointer).Elem()
+	base := "G:" + rootPkg + ".ghost"
+	leaves(et, nil, func(path []int, lt types.Type) {
+		n, _ := leafName(base, et, path)
+		if s := sortOf(lt); s != "" {
+			names = append(names, n)
+			sorts = append(sorts, s)
+		}
+	})
+	return
+}
+
+// havocEverythingButGhost: like havocEverything, but the ghost variables keep their values
+// (contract clause "assigns everything" + "noghost": the callee has no ghost effects).
+func (c *Ctx) havocEverythingButGhost(st *State) {
+	names, sorts := c.ghostLeaves()
+	keep := map[string]string{}
+	for i, n := range names {
+		keep[n] = c.H(st, n, sorts[i])
+	}
+	c.havocEverything(st)
+	for n, t := range keep {
+		st.heap[n] = t
+	}
 }
 
 // atCallAsserts checks the top-level contract's "at call <callee> assert e" clauses at this call site.
@@ -923,6 +963,15 @@ func (e *Env) lvalue(x ast.Expr) *Ptr {
 		}
 		return &np
 	case *ast.IndexExpr:
+		if bp := e.lvalueOrNil(n.X); bp != nil {
+			if at, ok := bp.Elem.Underlying().(*types.Array); ok {
+				idx := e.eval(n.Index)
+				np := *bp
+				np.Sub = idx.Term
+				np.Elem = at.Elem()
+				return &np
+			}
+		}
 		base := e.eval(n.X)
 		idx := e.eval(n.Index)
 		switch bt := base.T.Underlying().(type) {
